@@ -29,21 +29,8 @@ func runC08(c *core.Ctx) {
 	hl := eng.Obj(c, pkM, "HashLeaf")
 	// ---- root and leaves
 	if fn := c.Fn(pkLedger, "LedgerStoreImp.executeBlock"); fn != nil {
-		var ok1 bool
-		for _, ci := range ir.Calls(fn, func(ci ssa.CallInstruction) bool {
-			o := ir.CalleeObj(ci)
-			return o != nil && o.Name() == "HashFullTreeWithLeafHash"
-		}) {
-			a := ci.Common().Args
-			okArg := isFieldNamed(a[len(a)-1], "CrossHashes")
-			okSt := false
-			if v, isV := ci.(ssa.Value); isV {
-				okSt = storedIntoField(v, "CrossStatesRoot")
-			}
-			ok1 = okArg && okSt
-			eng.Dominates(c, "C08.root", fn, relGuard("len(result.CrossHashes) != 0", isLenOfField("CrossHashes", nil), isConstInt(0), token.NEQ), []ir.Sink{{Instr: ci, Note: "root computation"}}, "root over the produced leaves", nil)
-		}
-		c.Decide(ok1, "C08.root", fn, "CrossStatesRoot = HashFullTreeWithLeafHash(result.CrossHashes)", c.P.Rel(fn.Pos()), "")
+		ok1, why1 := crossRootAssigned(c, "C08.root", fn)
+		c.Decide(ok1, "C08.root", fn, "CrossStatesRoot = HashFullTreeWithLeafHash(result.CrossHashes)", c.P.Rel(fn.Pos()), why1)
 		// CrossHashes only grows by the per-transaction lists
 		okApp := true
 		n := 0
